@@ -54,6 +54,7 @@ fn pushdown_case(c: &mut Case, nconfigs: usize) -> CaseResult {
     let f = gen_file(c)?;
     f.file_classes(c);
     let opts = CfgOpts::default();
+    let mut nonempty = 0;
     for k in 0..nconfigs {
         let cfg = gen_cfg(&mut c.tape, &f, &opts);
         // front-end: the synchronous reader (3/4) or the push decoder fed exactly what it asks for (1/4)
@@ -77,6 +78,9 @@ fn pushdown_case(c: &mut Case, nconfigs: usize) -> CaseResult {
         check_against_expected(what, &out, &exp, cfg.eff_batch(&f))?;
         c.evals(1);
         // classes about what the configuration exercised
+        if exp.nrows > 0 {
+            nonempty += 1;
+        }
         if exp.nrows == 0 {
             c.class("result:empty");
         } else if exp.nrows == cfg.rows(&f) {
@@ -104,6 +108,11 @@ fn pushdown_case(c: &mut Case, nconfigs: usize) -> CaseResult {
                 c.class("offset:consumes-first-row-group");
             }
         }
+        if let Some(s) = &cfg.sel {
+            if matches!(s.build, SelBuild::Mask(_)) && (cfg.offset.is_some() || cfg.limit.is_some()) {
+                c.class("mask-backed-selection+offset/limit");
+            }
+        }
         let crosses = run_crosses_page(&f, &cfg);
         if crosses {
             c.class("sel:run-crosses-page");
@@ -116,6 +125,7 @@ fn pushdown_case(c: &mut Case, nconfigs: usize) -> CaseResult {
             c.class("nontrivial-config");
         }
     }
+    c.class(format!("configs-with-rows:{}/4", nonempty * 4 / nconfigs.max(1)));
     Ok(())
 }
 
@@ -524,6 +534,22 @@ fn sub_algebra(c: &mut Case) -> CaseResult {
     Ok(())
 }
 
+// =================================================================================================
+// reproduction of known finding "delta-skip" (only run through known_findings.json / --replay; 0 generated cases)
+// =================================================================================================
+
+/// Int32 column [MIN, 0, MIN, 0, ...] (constant wrapping delta i32::MIN), V2 pages without dictionary
+/// (DELTA_BINARY_PACKED); selection skip 3, select 5.
+fn sub_repro_delta_skip(c: &mut Case) -> CaseResult {
+    c.describe(json!({"column": "Int32 non-null [MIN,0,MIN,0,MIN,0,MIN,0]", "writer": "PARQUET_2_0, dictionary disabled", "selection": "skip 3, select 5"}));
+    match no_panic("delta-skip", delta_skip_repro)? {
+        Ok((got, want)) => ensure!(got == want, "delta-skip:rows", "got {:?} expected {:?}", got, want),
+        Err(e) => fail!("delta-skip:err", "reading rows 3..8 of a valid file failed: {}", e),
+    }
+    c.evals(1);
+    Ok(())
+}
+
 fn main() {
     Check::new(
         "C06",
@@ -535,7 +561,7 @@ fn main() {
     .assume("RowSelection::{offset,limit,trim,expand_to_batch_boundaries} are pub(crate): exercised only through with_offset/with_limit and the push decoder's cache expansion, not called directly (no source hook)")
     .assume("intersection/union of unequal lengths: common prefix position-wise, tail of the longer operand kept (doc example)")
     .sub(
-        Sub::new("pushdown", 260, 4000, sub_pushdown).tape(400, 6000).require(&[
+        Sub::new("pushdown", 20000, 200000, sub_pushdown).tape(1500, 8000).require(&[
             "file:nested",
             "file:flat",
             "file:no-offset-index",
@@ -551,9 +577,14 @@ fn main() {
             "offset",
             "limit",
             "nontrivial-config",
+            "mask-backed-selection+offset/limit",
+            "col:dictionary",
+            "col:list-of-struct",
+            "file:row-groups=1",
         ]),
     )
-    .sub(Sub::new("selection_algebra", 6000, 150000, sub_algebra).tape(64, 1500).require(&[
+    .sub(Sub::new("repro_delta_skip", 0, 0, sub_repro_delta_skip))
+    .sub(Sub::new("selection_algebra", 400000, 4000000, sub_algebra).tape(64, 1500).require(&[
         "op:and_then",
         "op:intersection",
         "op:union",
